@@ -17,13 +17,13 @@ ENGINES = {
 PROPS = {
     "C18": dict(engines=["res"], props_file="Props/C18.v", checkers=["Oracles/ResCheck.v"],
                 coq_scan=["Base", "Generated/Quantity.v", "Oracles/ResCheck.v", "Props/C18.v"], level="proof",
-                explanation="112 Coq theorems about the executable model of resources.go / quantity.go (calculators equal the clamped exact result; every vector operation and predicate equals its component-wise definition at every key, for all key sets, all int64 values, nil and empty; results do not depend on map iteration order; parse returns number x multiplier exactly or an error). The same right-hand sides are evaluated as oracles on the results of the real code for every generated call; non-mutation and panics are observed by the harness. The multiplier table and the regexp text are re-extracted from quantity.go on every run and must equal the modelled ones (proof obligation by reflexivity).",
+                explanation="120 Coq theorems about the executable model of resources.go / quantity.go (calculators equal the clamped exact result; every vector operation and predicate equals its component-wise definition at every key, for all key sets, all int64 values, nil and empty; results do not depend on map iteration order; parse returns number x multiplier exactly or an error). The same right-hand sides are evaluated as oracles on the results of the real code for every generated call; non-mutation and panics are observed by the harness. The multiplier table and the regexp text are re-extracted from quantity.go on every run and must equal the modelled ones (proof obligation by reflexivity).",
                 manifest=dict(
                     category="proof",
-                    text="Coq theorems (no axioms): addVal/subVal/mulVal of the model (Go wrap-around arithmetic and the code's own overflow tests) equal clamp of the exact sum/difference/product for all int64 operands; mulValRatio always returns an int64 and equals clamp(trunc(binary64 product)) whenever that product is a canonical binary64 datum (partial: canonicity of SpecFloat's multiplication is not re-proved); for Add, Sub, AddTo, SubFrom, SubOnlyExisting, AddOnlyExisting, SubEliminateNegative, SubErrorNegative, Multiply, ComponentWiseMin(OnlyExisting), ComponentWiseMax, MergeIfNotPresent, Prune the lookup of the result at every key is the stated component-wise function of the operands' lookups (value and key set), well-formedness and int64 range are preserved; FitIn/FitInMaxUndef/FitInActual, StrictlyGreaterThan(OrEquals)(OnlyExisting), Equals, DeepEquals, EqualsOrEmpty, IsZero, MatchAny, HasNegativeValue, StrictlyGreaterThanZero equal their forall-k definitions with the documented treatment of missing types; all are invariant under permutation of the association lists (Go map order) and total on nil; parse(s, milli) = Ok v iff the trimmed string is digits+ \\s* suffix with suffix in the extracted multiplier table and v = number x multiplier (x1000 for milli without m) within int64, any other string is an error. The model is tied to the Go code by a correspondence run on every invocation (every exported function, the four calculators and parse; model result and specification oracle both compared with the implementation; arguments checked for non-mutation and non-aliasing by the harness).",
+                    text="Coq theorems (no axioms): addVal/subVal/mulVal of the model (Go wrap-around arithmetic and the code's own overflow tests) equal clamp of the exact sum/difference/product for all int64 operands; mulValRatio always returns an int64 and equals clamp(trunc(binary64 product)) for every value and every non-NaN ratio (canonicity of SpecFloat's rounding/product/int conversion re-proved without Flocq); for Add, Sub, AddTo, SubFrom, SubOnlyExisting, AddOnlyExisting, SubEliminateNegative, SubErrorNegative, Multiply, ComponentWiseMin(OnlyExisting), ComponentWiseMax, MergeIfNotPresent, Prune the lookup of the result at every key is the stated component-wise function of the operands' lookups (value and key set), well-formedness and int64 range are preserved; FitIn/FitInMaxUndef/FitInActual, StrictlyGreaterThan(OrEquals)(OnlyExisting), Equals, DeepEquals, EqualsOrEmpty, IsZero, MatchAny, HasNegativeValue, StrictlyGreaterThanZero equal their forall-k definitions with the documented treatment of missing types; all are invariant under permutation of the association lists (Go map order) and total on nil; parse(s, milli) = Ok v iff the trimmed string is digits+ \\s* suffix with suffix in the extracted multiplier table and v = number x multiplier (x1000 for milli without m) within int64, any other string is an error. The model is tied to the Go code by a correspondence run on every invocation (every exported function, the four calculators and parse; model result and specification oracle both compared with the implementation; arguments checked for non-mutation and non-aliasing by the harness).",
                     note="theorems are about the hand-written Gallina model coq/Base (Int64.v, F64.v, Res.v, ResMore.v, Quantity.v); the tie to the code is differential (one call per case, generators reach the int64 extremes, nil/empty/aliased arguments, unicode and malformed UTF-8 strings); 'never modify their arguments' is not expressible for a pure function and is decided by the harness only; float helper functions (getFairShare, compareShares, CompUsageRatio*, FitInScore, FairnessRatio, CalculateAbsUsedCapacity, DominantResourceType) are covered by model/implementation correspondence only; amd64 float->int conversion and absence of FMA contraction are trusted; kernel + vm_compute trusted",
                     technique="Coq proof over an executable model + model/implementation correspondence + specification oracles on implementation results"),
                 assumptions=["all quantities are int64 values (in_range) and resource vectors have no duplicate keys (every Go map)",
-                             "mulValRatio: the binary64 product is a canonical datum (true of IEEE-754 multiplication; checked on every generated case)",
+                             "mulValRatio / MultiplyBy: the ratio is not NaN (NaN: platform conversion result, correspondence only)",
                              "float64 semantics of amd64 Go: round to nearest even, no fused multiply-add, out-of-range float->int64 conversion yields MinInt64"]),
 }
